@@ -54,10 +54,17 @@ type Model struct {
 	Events map[uint64]int    // nonce -> number of contract_event events seen
 	Exec   map[uint64]int    // nonce -> successful executions
 	Base   string            // receiver's FX balance at the root
+	// Cast: "nonce/claim hash" -> oracles whose accepted vote was for exactly that claim. Not part of Canon: for every
+	// attestation still in the store the invariant ties it to the store's own vote list, and entries of deleted
+	// attestations are never looked at again.
+	Cast map[string][]string
 }
 
 func (m *Model) Clone() explore.Model {
-	c := &Model{Obs: map[uint64]string{}, Events: map[uint64]int{}, Exec: map[uint64]int{}, Base: m.Base}
+	c := &Model{Obs: map[uint64]string{}, Events: map[uint64]int{}, Exec: map[uint64]int{}, Base: m.Base, Cast: map[string][]string{}}
+	for k, v := range m.Cast {
+		c.Cast[k] = v // slices are only ever replaced by appended copies
+	}
 	for k, v := range m.Obs {
 		c.Obs[k] = v
 	}
@@ -132,7 +139,7 @@ func (s *Spec) Init() *explore.State {
 	// the first oracle set is created by the first end-blocker; nothing to confirm yet.
 	_ = k
 	base := w.App.BankKeeper.GetBalance(ctx, w.A("u1").Acc(), "FX").Amount.String()
-	return &explore.State{W: w, Ctx: ctx, Model: &Model{Obs: map[uint64]string{}, Events: map[uint64]int{}, Exec: map[uint64]int{}, Base: base}}
+	return &explore.State{W: w, Ctx: ctx, Model: &Model{Obs: map[uint64]string{}, Events: map[uint64]int{}, Exec: map[uint64]int{}, Base: base, Cast: map[string][]string{}}}
 }
 
 func (s *Spec) sig(x string) string { return s.Prop + "/" + x }
@@ -202,6 +209,8 @@ func (s *Spec) voteOp(oi int, rel int, variant string) explore.Op {
 			return
 		}
 		st.Outcome = "accepted"
+		ck := fmt.Sprintf("%d/%x", n, claim.ClaimHash())
+		m.Cast[ck] = append(append([]string(nil), m.Cast[ck]...), o.Acct.Bech())
 		if !online {
 			st.Violate("vote-admission", s.sig("vote-from-non-online-oracle"), fmt.Sprintf("%s (submitted by %s) accepted although oracle registered=%v online=%v bridger-index=%v registered bridger=%s", name, o.Bridger.Bech(), registered, orc.Online, hasIdx, orc.BridgerAddress))
 		}
@@ -519,7 +528,17 @@ func (s *Spec) Check(st *explore.State) {
 	votedFor := map[string]string{} // "nonce/oracle" -> claim hash the oracle's vote is recorded for
 	k.IterateAttestationAndClaim(ctx, func(att *cctypes.Attestation, claim cctypes.ExternalClaim) bool {
 		seen := map[string]bool{}
+		cast := m.Cast[fmt.Sprintf("%d/%x", claim.GetEventNonce(), claim.ClaimHash())]
 		for _, v := range att.Votes {
+			if claim.GetEventNonce() > 1 { // event 1 was voted in by the set-up
+				found := false
+				for _, c := range cast {
+					found = found || c == v
+				}
+				if !found {
+					st.Violate("vote-counted-only-for-the-claim-it-named", s.sig("vote-tallied-for-a-claim-the-oracle-did-not-vote-for"), fmt.Sprintf("nonce %d: the attestation of claim %x lists %s as a voter, but that oracle's accepted votes for this claim are %v (all votes cast: %v)", claim.GetEventNonce(), claim.ClaimHash()[:6], v, cast, m.Cast))
+				}
+			}
 			key := fmt.Sprintf("%d/%s", claim.GetEventNonce(), v)
 			h := hex.EncodeToString(claim.ClaimHash())
 			if prev, ok := votedFor[key]; ok && prev != h {
